@@ -149,6 +149,12 @@ func TestVX_C15_Encoding(t *testing.T) {
 			run(b, "noncanonical-plus-p")
 		}
 	}
+	{
+		xs, ys, names := sm2ref.NearCurvePoints(sm2ref.G())
+		for i := range xs {
+			run(encRef(sm2ref.Point{X: xs[i], Y: ys[i]}), "near:"+names[i])
+		}
+	}
 	for pi, P := range sm2ref.SmallXPoints(6) {
 		run(encRef(P), fmt.Sprintf("smallx%d:canonical", pi))
 		b := encRef(P)
